@@ -586,21 +586,33 @@ RULE = ('toy curves (SW a = 0 / a != 0, cofactor 1 and 2, TE complete; r = 7, 19
         'scalar classes (0, 1, r-1, 2^j, runs of ones, all ones, >= r for big integers, threshold windows) x base classes '
         '(all equal, identities, negatives of each other, two distinct); mismatched length pairs; accumulator histories '
         'with buffer sizes 0, 1, 2, 3, n/2, n-1, n, n+1, 32, 33; make_digits for w in 2..16, N in 1..6, num_bits around limb '
-        'borders.  non-trivial = some scalar non-zero; distinct = distinct case lines')
+        'borders.  Pairing target groups PairingOutput<P> (ark_test_curves bls12_381 and ark_bls12_381: Fp12, ark_mnt4_298: Fp4; '
+        'zero = 1, + = product): every entry point and both accumulators, lengths 0,1,2,3,5,31,32,33, bases = powers of '
+        'e(G1,G2) incl. g^-1 = g^(r-1), repeated bases, inverse pairs and the identity at the first / middle / last position '
+        'with distinct non-zero scalars, scalars tiny / 0,1,r-1 / full size / >= r, mismatched length pairs.  '
+        'non-trivial = some scalar non-zero; distinct = distinct case lines')
 XCHECK = {'quick': 300, 'thorough': 1500}
 TRUSTED = ['toy curve configurations inside harness/src/bin/c05.rs (hand-written; the `params` op compares modulus, '
            'coefficients, scalar modulus, MODULUS_BIT_SIZE, limb count and NEGATION_IS_CHEAP of every configuration with '
            'what the model is given)',
            'props/C03/toycurves.py and props/C03/shipped.json only build inputs (on-curve points)',
-           'the verif_hooks module of ec/src/scalar_mul/variable_base/mod.rs forwards to the private functions']
+           'the verif_hooks module of ec/src/scalar_mul/variable_base/mod.rs forwards to the private functions',
+           'props/C05/gt.json (tower constants and g = e(G1,G2) of the pairing engines: inputs; the `params` case compares the '
+           'modulus, u^2, v^2, v^3, w^2, r, MODULUS_BIT_SIZE, limb count, NEGATION_IS_CHEAP, g and g * conj g = 1 with the real code) '
+           'and props/C10/tower.py (plain tower arithmetic) only build inputs (powers of g)']
 ASSUMPTIONS = ['default features (no parallel)',
                'BigInt ==, is_zero, >>=, as_ref()[0], num_bits are modelled at value level (their limb-level models are C15)',
                'scalar_digits.chunks(digits_count) is modelled as the per-scalar digit vectors',
                'the hash map is an association list; its iteration order is not observable in the result',
-               'curve arithmetic = the C03 model (coq/C03/CurveExec.v)']
+               'curve arithmetic = the C03 model (coq/C03/CurveExec.v)',
+               'pairing target group: target-field product = the schoolbook tower of Base/Field.v (the Karatsuba / sparse '
+               'algorithms of ff are C02), cyclotomic_inverse = conjugation, cyclotomic_square (Granger-Scott for Fp12) = square: '
+               'equal on the cyclotomic subgroup (C02_zp_fp12_cyc_square_partial), which contains every generated base']
 HYPOTHESES = ['commutative-group laws of the abstract group (A, +, -, 0) (assoc, comm, 0 + x = x, x + (-x) = 0)',
               'the dictionary operations gadd/gmadd/gmsub/gdbl/gzero are homomorphic to that group through an interpretation `den`',
-              'hashmap: r * den(P) = 0 for every base (prime-order subgroup) and the base equality test is sound']
+              'hashmap: r * den(P) = 0 for every base (prime-order subgroup) and the base equality test is sound',
+              'C05_gt_*: the ring below the quadratic top level of the target field is a commutative ring (ring_theory) with a '
+              'correct equality test; carrier = norm-one elements x * conj x = 1']
 
 # pinned theorems that discharge this package's group-level premises for the concrete C03 curve dictionaries
 EXTRA_PROP_FILES = ['Link', 'Assoc']
